@@ -275,7 +275,9 @@ ReleaseName(s, ser, fl, n) ==
               nw == IF q2 = <<>> THEN NoSlot ELSE q2[1].s IN
           /\ queue' = qs
           /\ out' = Capture(Now, call, s, NoSlot)
-                    \o (IF q[1].s = s THEN OwnerChange(W, n, s, nw) ELSE <<>>)
+                    \* (NameLost / NameOwnerChanged / NameAcquired are staged BEFORE the owner is unlinked: rules and
+                    \* filters that name a destination by a well-known name still see the old ownership)
+                    \o (IF q[1].s = s THEN OwnerChange(Now, n, s, nw) ELSE <<>>)
                     \o FromBus(W, s, Reply(uname[s], ser, SigU, <<AU32(1)>>, "exact"))
                     \o EavesCopies(W, s, call, NoSlot)
           /\ UNCHANGED <<act, fdx, cfg, cst, dying, uid, uname, everNames, rules, pend, mon>>
@@ -384,7 +386,7 @@ DropNames(W, s, order, i) ==
            qs2 == PutQ(W.qs, n, q2)
            W2 == [W EXCEPT !.qs = qs2]
            nw == IF q2 = <<>> THEN NoSlot ELSE q2[1].s
-           em == IF q[1].s = s THEN OwnerChange(W2, n, s, nw) ELSE <<>>
+           em == IF q[1].s = s THEN OwnerChange(W, n, s, nw) ELSE <<>>      \* (staged before the unlink, see ReleaseName)
            rest == DropNames(W2, s, order, i + 1) IN
        [qs |-> rest.qs, em |-> em \o rest.em]
 
@@ -711,7 +713,8 @@ RequestName(s, ser, fl, n, f) ==
                    h == HeldOut(W, pend, es, 1, s, maybe) IN
                /\ pend' = h.pd
                /\ out' = Capture(Now, call, s, NoSlot)
-                         \o (IF r.w # NoSlot THEN OwnerChange(W, n, r.o, r.w) ELSE <<>>)
+                         \* (staged before the queue changes, see ReleaseName)
+                         \o (IF r.w # NoSlot THEN OwnerChange(Now, n, r.o, r.w) ELSE <<>>)
                          \o StartedOut(W, es, 1, maybe)
                          \o h.out
                          \o FromBus(W, s, Reply(uname[s], ser, SigU, <<AU32(r.code)>>, "exact"))
